@@ -6,7 +6,7 @@
    explicit premises below, shown satisfiable by Examples in proofs/C13_proofs.v. *)
 From Coq Require Import Reals Arith List.
 Require Import AOV.base.Num AOV.base.NumR AOV.base.Cplx AOV.model.Mat AOV.model.KL
-               AOV.proofs.Mat_proofs AOV.proofs.C13_lemmas AOV.proofs.C13_proofs.
+               AOV.proofs.Mat_proofs AOV.proofs.C13_lemmas AOV.proofs.C13_proofs AOV.proofs.C13_diag AOV.gen.Gen_kl.
 Import ListNotations.
 Local Open Scope R_scope.
 
@@ -139,6 +139,57 @@ Theorem C13_eigenvectors_diagonalise_their_order : forall G K ri nr kp (vs : lis
     ndot (ROps G K) (mcol vs a) (mvec (ROps G K) (orderp_matrix (ROps G K) ri nr kp) (mcol vs b))
     = if (a =? b)%nat then nth a lam 0 else 0.
 Proof. exact order_p_diagonalises. Qed.
+
+(* ---- the modes diagonalise the Kolmogorov phase covariance on the native polar grid (npp = 5 nr) ----
+   cov2 F1 F2 = -1/2 * (1/(nr N))^2 * sum_{k,t} sum_{k',t'} F1[k][t] * D(k, k', (t - t') mod N) * F2[k'][t'],
+   the double pupil average of F1(x) D(|x - x'|) F2(x'), where D(k,k',s) is the structure function of the
+   separation of the polar grid points (r_k, theta) and (r_k', theta + 2 pi s/N) in units of the diameter: *)
+Theorem C13_cov2_uses_the_kolmogorov_structure_function : forall G K nr rad k k' s, (s < 5 * nr)%nat ->
+  Dsf G K nr rad k k' s
+  = stf_kolmogorov (ROps G K)
+      (5 / 10 * sqrt ((nth k rad 0 * nth k rad 0 + nth k' rad 0 * nth k' rad 0)
+                      - 2 * nth k rad 0 * nth k' rad 0 * cos (INR s * 2 * PI / INR (5 * nr)))).
+Proof.
+  intros G K nr rad k k' s Hs. unfold Dsf, kl_sf.
+  rewrite (Dft_proofs.nth_map_seq _ (5 * nr) s) by exact Hs.
+  f_equal. unfold nofQ, nsqr, two, kz. rops. rewrite <- !INR_IZR_INZ. reflexivity.
+Qed.
+
+(* for the modes the model builds from eigenvector matrices satisfying the eigen-equations of the matrices it hands
+   to eigh (order 0 after piston filtering, orders 1..pmax), every pair of selected modes other than the constant
+   one satisfies  -1/2 <K_i D K_j> = delta_ij * (returned variance of mode i) *)
+Theorem C13_modes_diagonalise_the_kolmogorov_covariance :
+  forall G K ri nr rad nord nfunc (sorted : list nat) (kers : list (list (list R)))
+         (v0 : list (list R)) (lam0 : list R) (vsp : nat -> list (list R)) (lamp : nat -> list R) (evs : list (list R)) pmax,
+  (1 <= nr)%nat -> 1 - ri * ri <> 0 -> NoDup sorted ->
+  (forall x, In x sorted -> (x < nr * S pmax)%nat) ->
+  (2 * pmax < nord)%nat -> (2 * pmax < 5 * nr)%nat ->
+  wf_mat (nr - 1) (nr - 1) v0 ->
+  (forall b, (b < nr - 1)%nat ->
+     mvec (ROps G K) (order0_matrix (ROps G K) ri nr (kernel_order (ROps G K) ri nr rad 0)) (mcol v0 b)
+     = vscale (ROps G K) (nth b lam0 0) (mcol v0 b)) ->
+  (forall a b, (a < nr - 1)%nat -> (b < nr - 1)%nat ->
+     rsum (fun j => ent v0 j a * ent v0 j b) (nr - 1) = if (a =? b)%nat then 1 else 0) ->
+  nth 0 kers [] = radial0 (ROps G K) nr v0 -> length lam0 = (nr - 1)%nat ->
+  (forall p, (1 <= p <= pmax)%nat ->
+     wf_mat nr nr (vsp p) /\
+     (forall b, (b < nr)%nat ->
+        mvec (ROps G K) (orderp_matrix (ROps G K) ri nr (kernel_order (ROps G K) ri nr rad p)) (mcol (vsp p) b)
+        = vscale (ROps G K) (nth b (lamp p) 0) (mcol (vsp p) b)) /\
+     (forall a b, (a < nr)%nat -> (b < nr)%nat ->
+        rsum (fun k => ent (vsp p) k a * ent (vsp p) k b) nr = if (a =? b)%nat then 1 else 0) /\
+     nth p kers [] = radialp (ROps G K) nr (vsp p) /\ length (lamp p) = nr /\ nth p evs [] = lamp p) ->
+  length evs = S pmax -> nth 0 evs [] = lam0 ++ [0] ->
+  let oi := oind nr nfunc sorted in
+  forall i i', (i < length oi)%nat -> (i' < length oi)%nat ->
+    nth i oi 0%nat <> (nr - 1)%nat -> nth i' oi 0%nat <> (nr - 1)%nat ->
+    cov2 G K nr rad (kl_mode G K kers nr nord (5 * nr) oi i) (kl_mode G K kers nr nord (5 * nr) oi i')
+    = if (i =? i')%nat then nth i (evals_out (ROps G K) (concat evs) oi) 0 else 0.
+Proof. exact kl_modes_diagonalise_covariance. Qed.
+Print Assumptions C13_modes_diagonalise_the_kolmogorov_covariance.
+
+(* all of these premises hold together for a concrete instance *)
+Example C13_diagonalisation_premises_satisfiable : forall G K rad, _ := kl_modes_diag_premises_satisfiable.
 
 (* ---- Cartesian rendering ---- *)
 (* the returned pupil is exactly the indicator of the annulus ri^2 <= x^2 + y^2 <= 1 at the pixel centres *)
